@@ -3,3 +3,13 @@ claim("C16",
       "Every byte string of length <=4 (quick) / <=5 (thorough) over a 14-byte alphabet that reaches every lexer branch is lexed and checked against the input itself (prefix reconstruction with whitespace skipping, rune-boundary, Peek/Peek/Next agreement with an unpeeked twin lexer, EOF stickiness, error tokens only where the harness's own scanner sees a lexical error, Parse rejects); plus random byte/rune/hostile strings and printed queries with injected lexical errors. Held on everything explored; not a proof for longer inputs.",
       "Trusts Go's utf8/unicode tables, rapid, and the harness's 20-line scanner for what counts as a lexical error. Token kinds and exact boundaries are deliberately not specified.",
       "DESIGN.md section 4, C16")
+claim("C01",
+      "exhaustive token-sequence enumeration + rapid trees/strings + adversarial big shapes under recover and a watchdog",
+      "Every token sequence up to a stated length over four alphabets (31-token full, 22-token class-reduced, three 10-token focus alphabets), random printed trees in all layouts, random bytes / hostile fragments / token soups, and 22 adversarial shapes of thousands of tokens, each with and without a default field, are pushed through Parse, ToPostgres, ToParameterizedPostgres, String, %#v and json.Marshal; any panic, any %! marker (inputs without %) and any call on a small input that does not return within 20 s is a violation. Growth ratios on doubling are recorded as evidence for 'polynomial', not used as a verdict.",
+      "Absence of panics is shown only for the explored inputs. 'Polynomial time' is evidenced (growth table), only hangs are decided. Native fuzzing (thorough) is not seedable.",
+      "DESIGN.md section 4, C01")
+claim("C10",
+      "same input population as C01 against an xor-of-results oracle and an independent shape predicate",
+      "For every enumerated / generated input: Parse returns exactly one of (tree, error); accepted trees pass expr.Validate and the harness's own recursive shape predicate (which also enters range boundaries and list elements); ToPostgres returns non-empty SQL xor an error; parameterized SQL is empty on error; both renderers report Parse's error whenever Parse fails.",
+      "The shape predicate is the harness's reading of the property text (trusted base). Trees built by hand through the constructors are out of scope.",
+      "DESIGN.md section 4, C10")
